@@ -1,6 +1,8 @@
 #!/bin/sh
 # regenerate _CoqProject from the files present and build everything (full .vo build)
 cd "$(dirname "$0")"
-{ echo "-Q . GV"; ls Lib/*.v Model/*.v Proofs/*.v Props/*.v Extract/*.v 2>/dev/null; } > _CoqProject
+# Props/*_thorough.v (minutes of vm_compute) are not part of the normal build: the thorough tier of
+# ./check compiles them on demand (harness/core.py coq_step); GV_THOROUGH=1 includes them here too.
+{ echo "-Q . GV"; ls Lib/*.v Model/*.v Proofs/*.v Props/*.v Extract/*.v 2>/dev/null | { if [ -n "$GV_THOROUGH" ]; then cat; else grep -v '_thorough\.v$'; fi; }; } > _CoqProject
 coq_makefile -f _CoqProject -o Makefile >/dev/null 2>&1
 exec timeout ${GV_MAKE_TIMEOUT:-3000} make -j${GV_JOBS:-16} "$@"
